@@ -141,13 +141,14 @@ theorem decodeData_total (t : Template) (r : Rd) (res : Except Err Record) (r' :
     split at h <;> (simp only [Prod.mk.injEq] at h; rw [← h.2]; exact t1)
 
 /-- **skip, one set, element missing from the information model**: a data set whose template `t` is
-cached, with a body of more than 4 octets on which the record decoder (run on the body alone) stops
-with `unknownElem`, is skipped like an undecodable one, in front of any `rest`. -/
+cached, with a body of at least the shortest record (`minRecLen t` octets: the record loop is entered) on
+which the record decoder (run on the body alone) stops with `unknownElem`, is skipped like an undecodable
+one, in front of any `rest`. -/
 theorem decodeSet_skips_unknownElem (addr : Bytes) (fuel : Nat) (st : St) (sid : Nat) (body rest : Bytes)
     (t : Template) (r1 : Rd)
     (hsid : sid < 65536) (hlen : 4 + body.length < 65536) (hfuel : 0 < fuel)
     (hrem : st.r.rem = setBytes sid body ++ rest)
-    (hbig : sid > 255) (hlook : st.cache.lookup addr sid = some t) (hbody : body.length > 4)
+    (hbig : sid > 255) (hlook : st.cache.lookup addr sid = some t) (hbody : body.length ≥ minRecLen t)
     (hdec : decodeData t ⟨body, st.r.cnt + 4⟩ = (.error .unknownElem, r1)) :
     decodeSet addr fuel st =
       ({ st with r := ⟨rest, st.r.cnt + (setBytes sid body).length⟩ }, some .unknownElem) := by
@@ -174,13 +175,13 @@ theorem decodeSet_skips_unknownElem (addr : Bytes) (fuel : Nat) (st : St) (sid :
     have hcc : contCond ⟨addr, sid, 4 + body.length, cnt, t⟩ ⟨body ++ rest, cnt + 2 + 2⟩ = true := by
       have hco : consumed16 ⟨addr, sid, 4 + body.length, cnt, t⟩ ⟨body ++ rest, cnt + 2 + 2⟩ = 4 := by
         simp only [consumed16]; omega
-      unfold contCond
-      rw [hco]
+      have hpos : 1 ≤ minRecLen t := by unfold minRecLen; simp only; split <;> omega
+      unfold contCond minLeft
+      rw [hco, if_pos hbig]
       have h1 : 4 + body.length > 4 := by omega
-      have h2 : body.length + rest.length > 4 := by omega
-      have h3 : (4 + body.length + 65536 - 4) % 65536 > 4 := by omega
-      simp [h1, h2]
-      omega
+      have h2 : (body ++ rest).length ≥ minRecLen t := by simp only [List.length_append]; omega
+      have h3 : (4 + body.length + 65536 - 4) % 65536 ≥ minRecLen t := by omega
+      simp only [decide_eq_true h1, decide_eq_true h2, decide_eq_true h3, Bool.and_self]
     have h23 : ¬ (sid = 2 ∨ sid = 3) := by omega
     have hres : ¬ (4 ≤ sid ∧ sid ≤ 255) := by omega
     have hz : ¬ sid = 0 := by omega
@@ -217,7 +218,7 @@ theorem skipped_of_undecodable (addr : Bytes) (c : Cache) (sid : Nat) (body : By
 /-- the hypothesis on the record decoder may be stated at any count (`ShiftIpfix`) -/
 theorem skipped_of_unknownElem (addr : Bytes) (c : Cache) (sid : Nat) (body : Bytes) (t : Template) (r1 : Rd)
     (hsid : sid < 65536) (hlen : 4 + body.length < 65536)
-    (hbig : sid > 255) (hlook : c.lookup addr sid = some t) (hbody : body.length > 4)
+    (hbig : sid > 255) (hlook : c.lookup addr sid = some t) (hbody : body.length ≥ minRecLen t)
     (hdec : decodeData t ⟨body, 0⟩ = (.error .unknownElem, r1)) :
     Skipped addr c (setBytes sid body) (some .unknownElem) where
   nonfatal := fun x hx => by simp only [Option.some.injEq] at hx; subst hx; rfl
